@@ -262,6 +262,10 @@ def run(ctx):
     C04.r2_size_conversions(ctx)
     C04.r5_no_panic(ctx)
     C17.r3_bounded_header(ctx)
+    C17.r3b_scan_window(ctx)          # a request whose terminator straddles two reads must not wedge its connection
+    from . import C09
+    C09.r2_flag_writer(ctx)           # a fatal alert must tear the session down (flag set by close() only)
+    C09.r3_recv_exits(ctx)            # garbled / truncated input ends the session cleanly on every exit of the receive loop
     r6_containment(ctx)
     r7_progress(ctx)
     r9_str_index(ctx, reach)
